@@ -672,6 +672,8 @@ class Sim:
         if trec.state != "L":
             self.violate("C03", "exit_state", f"{trec.name} exits in state {trec.state}")
         pc.n_run -= 1
+        if trec.req.elems is not None and any(t.state == "L" and t.k < trec.k for t in trec.req.tasks):
+            self.stats["probe:map_out_of_order_completion"] += 1
         ccb_kind = trec.req.ccb_kind
         if how == "cancel":
             trec.state = "C"
@@ -868,6 +870,10 @@ class Sim:
                 for r in pc.reqs:
                     if r.accepted_seq is None or not r.work_left() or r.lock_hit:
                         continue
+                    if full and pc.size:
+                        self.stats["probe:spawner_blocked_on_full_pool"] += 1
+                        if r.elems is not None:
+                            self.stats["probe:map_blocked_on_pool"] += 1
                     if r.elems is None:
                         if not full and not r.spawner_done():
                             self.violate("C02", "work_conservation", f"idle: r{r.label} has invocations left, pool {pc.pool_str} not full")
@@ -1775,6 +1781,9 @@ class Sim:
                         run["steps"].append(step)
                         self.exec_step(step)
                 self.run_phase_done = True
+                while self.inject and not self.hit_cap and len(self.viol) < self.MAX_VIOL:
+                    _, st = self.inject.pop(0)      # positions at/after the end of the step list
+                    self.exec_step(st)
                 if not self.hit_cap and len(self.viol) < self.MAX_VIOL:
                     self.handles_before_quiesce = self.loop.handles_run
                     ok = self.quiesce()
